@@ -241,8 +241,22 @@ class ValidatorInfo:
         self.has_else = False
 
 
+def _terminates(stmts):
+    """The statement list never falls through to what follows it."""
+    if not stmts:
+        return False
+    last = stmts[-1]
+    if isinstance(last, (ast.Return, ast.Raise, ast.Continue, ast.Break)):
+        return True
+    if isinstance(last, ast.If):
+        return _terminates(last.body) and _terminates(last.orelse)
+    return False
+
+
 def _conds_of(node, stop):
-    """Enclosing (test, polarity) pairs of a node up to function `stop`."""
+    """(test, polarity) pairs that hold when `node` runs, up to function `stop`: the enclosing if-arms, plus
+    the guard clauses before it (an earlier sibling `if c: ...; return/raise/continue` puts everything after it
+    under `not c`, exactly like an else arm)."""
     out = []
     cur = node
     while cur is not stop and cur is not None:
@@ -252,6 +266,21 @@ def _conds_of(node, stop):
                 out.append((par.test, True))
             elif cur in par.orelse:
                 out.append((par.test, False))
+        for fld in ("body", "orelse", "finalbody"):
+            lst = getattr(par, fld, None)
+            if isinstance(lst, list) and cur in lst:
+                for sib in lst[: lst.index(cur)]:
+                    if isinstance(sib, ast.If):
+                        tb, te = _terminates(sib.body), _terminates(sib.orelse)
+                        if tb and not te:
+                            out.append((sib.test, False))
+                            # an elif chain of guard clauses: every test of the chain was false
+                            e = sib.orelse
+                            while len(e) == 1 and isinstance(e[0], ast.If) and _terminates(e[0].body) and not _terminates(e[0].orelse):
+                                out.append((e[0].test, False))
+                                e = e[0].orelse
+                        elif te and not tb:
+                            out.append((sib.test, True))
         cur = par
     return out
 
